@@ -590,6 +590,9 @@ def run(ctx):
     ctx.rule("R-6.15", "every in-process random draw of a move comes from the job's streams that restart.toml persists (shared with C07 R-7.4): a draw from the process-global generator is not reproduced by a restart", floor=10)
     from . import c07 as _c07
     ctx.attempt(_c07.r74, RuleProxy(ctx, "R-6.15", " (restart equivalence: the restart file persists the scheduler stream only; a draw from any other generator differs between the run and its restart)"))
+    ctx.rule("R-6.16", "the live paths in memory stay what is on disk: moves hand frames of their input paths to engines only as fresh copies and never extend an input path in place (shared with C09 R-9.3) - otherwise a rejected move leaves the in-memory path pointing at scratch files while a restart reloads the intact path", floor=13)
+    from . import c09 as _c09
+    ctx.attempt(_c09.r93, RuleProxy(ctx, "R-6.16", " (restart equivalence: the run in one go continues from the modified in-memory path, the restarted run from the intact path on disk)"), _c09.move_functions(ctx.tree))
     from .shared import config_section_agreement, callsite_config_agreement, restart_preserves_settings
     ctx.attempt(restart_preserves_settings, ctx, "R-6.9", " (restart equivalence)")
     ctx.attempt(callsite_config_agreement, ctx, "R-6.8", "calc_cv_vector", ["interfaces", "moves", "lambda_minus_one", "cap"], " (restart equivalence: a path loaded from disk is weighted like the same path when it was accepted)")
@@ -597,6 +600,7 @@ def run(ctx):
 
 
 VARIANTS = [
+    B("c06-zero-swap-hands-live-frame-to-engine", TIS, "path_old0.phasepoints[-1].copy()", "path_old0.phasepoints[-1]", "R-6.16", control=True, why="seeded C06_j"),
     B("c06-ase-integrator-loses-job-stream", ASE_REL, "dyn = self.Integrator(atoms, **integrator_settings)", "dyn = self.Integrator(atoms, **self.integrator_settings)", "R-6.15", control=True, why="seeded C06_i"),
     B("c06-commit-only-when-printing", REPEX, "            self.print_shooted(md_items, pn_news)\n        # save for possible restart\n        self.write_toml()", "            self.print_shooted(md_items, pn_news)\n            # save for possible restart\n            self.write_toml()", "R-6.14", control=True, why="seeded C06_g"),
     B("c06-restarted-paths-treated-differently", TIS, '    if path.get_move() == "ld" or ens_set["tis_set"].get(', '    if path.get_move() in ("ld", "re") or ens_set["tis_set"].get(', "R-6.13", control=True, why="seeded C09_g"),
